@@ -26,4 +26,10 @@ TEXT = {
         "level_note": "str.lower, int(str), float(str) are uninterpreted (parses_int/parses_float); the options merge in Profile.load and --param parsing in __main__ are not yet under contract; yaml is trusted.",
         "design_ref": "DESIGN.md 5/C18",
     },
+    "C02": {
+        "category": "other",
+        "level_text": "The model builder solve_major_model is verified, for all gene databases, candidate sets, structures and evidence tables, to emit exactly the specified ILP model (ModelMajor, written from the statement): every variable family, every constraint family (copy ordering CORD, per-configuration equality CSAT, fit equations CFUNC for variants and reference sites, carried-XOR-novel COR/CXOR, one-novel-per-site CONE, novelty indicator) and the objective (absolute fit error + major_novel*[any novel] + 0.1*#novel) are proved pointwise equal to the specification by the foreach rule plus a sum-congruence prover; KeyError/ZeroDivision freedom of every look-up is discharged; the helpers prod/abssum and the accessors it relies on are verified against their own contracts. A dropped or weakened constraint changes the emitted family and fails a named obligation. Level 'other' because the read-out of the enumerated solutions and the optimality claims rest on the assumed solver contract (not a proof of the whole statement).",
+        "level_note": "Assumed: CBC/OR-Tools optimality and enumeration contract (C05); variables identified by (name template, values); constraints degenerate to Python booleans are treated as linear constraints. Not decided: read-out after setObjective (bounded native check only), agreement with independent solvers.",
+        "design_ref": "DESIGN.md 5/C02",
+    },
 }
